@@ -247,7 +247,8 @@ Definition build_pages (f : frame) (b : body) (st : strategy) (pages : list Z) :
 
 (* ---- C04 predicate on a page assignment (evaluated on the implementation's output) ----
    pages: page number of every row, in row order.  A break may fall before row i only if a grouping
-   rule forces it or the row no longer fits; a forced break must fall. *)
+   rule forces it or the row no longer fits; a break that is forced or needed (the page already holds
+   something and the row no longer fits) must fall. *)
 Fixpoint check_assign_from (avail : Z) (new_page : bool) (ms : list rowmeta) (pages : list Z)
          (prev cur : Z) : bool :=
   match ms, pages with
@@ -256,7 +257,7 @@ Fixpoint check_assign_from (avail : Z) (new_page : bool) (ms : list rowmeta) (pa
     let force := rm_ss m || (new_page && rm_gs m) in
     let over := (avail <? cur + rm_total m)%Z in
     if Z.eqb p prev
-    then negb (force && (0 <? cur)%Z) && check_assign_from avail new_page ms' ps p (cur + rm_total m)%Z
+    then negb ((force || over) && (0 <? cur)%Z) && check_assign_from avail new_page ms' ps p (cur + rm_total m)%Z
     else Z.eqb p (prev + 1) && (force || over) && check_assign_from avail new_page ms' ps p (rm_total m)
   | _, _ => false
   end.
